@@ -46,7 +46,7 @@ import (
 func init() {
 	h.Register(&h.Prop{
 		ID:   "C16",
-		Rule: "hist: two real nodes through a recording proxy over SUCCESSIVE connections (cuts, restarts of either node), every recorded frame of every earlier connection injected into later ones in both directions and reflected; mitm: real node → byte-level proxy → real node, 1..12 messages of 4 types and sizes 1 B..~1 MiB, every catalogue entry (bit flip at any body/header position, truncation, cut, duplicate-and-alter, injection at any position) plus verbatim replay; own: a key-holding endpoint sends well-encrypted packages with wrong inner signature (4 ways), no Anything, unknown type, junk, malformed value, other key, raw; non-trivial = at least one tampering op / bad item; distinct = distinct case line",
+		Rule: "sub: a real node with a scripted history of SubscribeMsg / UnSubscribeMsg calls (by value, by pointer, several types per call, re-subscription) receives messages of EVERY registered protobuf type of the repository (every ordered pair of types, the same-name types of different packages included) from a key-holding endpoint; hist: two real nodes through a recording proxy over SUCCESSIVE connections (cuts, restarts of either node), every recorded frame of every earlier connection injected into later ones in both directions and reflected; mitm: real node → byte-level proxy → real node, 1..12 messages of 4 types and sizes 1 B..~1 MiB, every catalogue entry (bit flip at any body/header position, truncation, cut, duplicate-and-alter, injection at any position) plus verbatim replay; own: a key-holding endpoint sends well-encrypted packages with wrong inner signature (4 ways), no Anything, unknown type, junk, malformed value, other key, raw; non-trivial = at least one tampering op / bad item; distinct = distinct case line",
 		Gen:  gen,
 		Exec: exec,
 	})
@@ -118,6 +118,14 @@ func exec(line string) (res h.Result) {
 		res = execHist(w[1])
 		res.Class, res.Nontrivial = histClass16(w[1])
 		return res
+	case "sub":
+		res = execSub(w[1], w[2])
+		res.Class, res.Nontrivial = subClass(w[2])
+		return res
+	case "reg":
+		return execReg()
+	case "gcm":
+		return execGcm(w[1])
 	}
 	panic("bad case line")
 }
@@ -128,6 +136,15 @@ func classOf(w []string) (string, bool) {
 	}
 	if w[0] == "hist" {
 		return histClass16(w[1])
+	}
+	if w[0] == "sub" {
+		return subClass(w[2])
+	}
+	if w[0] == "reg" {
+		return "reg", true
+	}
+	if w[0] == "gcm" {
+		return "gcm-" + strings.ReplaceAll(w[1], ",", ""), true
 	}
 	if w[0] == "own" {
 		bad := 0
@@ -1017,6 +1034,10 @@ func gen(tier string, rng *h.Rng, emit func(string)) {
 	}
 	// successive connections with record-and-replay across them
 	genHist(tier, h.NewRng(rng.U64()), emit)
+	// dispatch by type: subscription histories, messages of every registered type
+	genSub(tier, h.NewRng(rng.U64()), emit)
+	// the known finding gcm-nonce-reuse-forgery: a keyless proxy forges frames once it has seen three
+	genGcm(emit)
 	// honest transport
 	emit("mitm 0:1:1 -")
 	emit("mitm 0:1:1,1:1:2,2:1:3,3:1:4,2:17:5,3:4096:6,0:1:7,1:1:8 -")
@@ -1140,3 +1161,16 @@ func gen(tier string, rng *h.Rng, emit func(string)) {
 		emit("own " + strings.Join(its, ","))
 	}
 }
+
+// genGcm: the cases of the known finding gcm-nonce-reuse-forgery (enabled together with its KNOWN_FINDINGS line)
+func genGcm(emit func(string)) {
+	if !gcmCasesOn {
+		return
+	}
+	emit("gcm C")
+	emit("gcm P")
+	emit("gcm N,C")
+	emit("gcm P,B,N")
+}
+
+var gcmCasesOn = false
